@@ -58,13 +58,13 @@ def mutator_jobs(prefix=''):
     out = []
     h = ND + 'void h_add(void) { struct Position P = nondet_Position(); uint32_t pc = nondet_u32(), sq = nondet_u32(); %s(&P, pc, sq);' % ADD + CANARY + '}\n'
     out.append(Job(prefix + 'mut/add_piece', PTUS, [ADD], h, 'h_add', contracts={ADD: C_ADD}, enforce=ADD, spec=SPEC, post_spec=POST,
-                   timeout=2400, backend='cadical', note='add_piece: exact effect on board, both bitboards, list slot and count; list row stays well-formed; key delta'))
+                   timeout=2400, backend='cadical', tier='thorough', note='add_piece: exact effect on board, both bitboards, list slot and count; list row stays well-formed; key delta'))
     h = ND + 'void h_rem(void) { struct Position P = nondet_Position(); uint32_t sq = nondet_u32(); %s(&P, sq);' % REM + CANARY + '}\n'
     out.append(Job(prefix + 'mut/remove_piece', PTUS, [REM], h, 'h_rem', contracts={REM: C_REM}, enforce=REM, spec=SPEC, post_spec=POST,
                    unwindset=loops_unwind([('remove_piece', 11)]), route='closed-by-complete-unwinding(11): piece lists have 10 slots',
-                   timeout=2400, backend='cadical', note='remove_piece: exact effect on board and bitboards; list row stays well-formed (swap-with-last) with one entry fewer; key delta'))
+                   timeout=2400, backend='cadical', tier='thorough', note='remove_piece: exact effect on board and bitboards; list row stays well-formed (swap-with-last) with one entry fewer; key delta'))
     h = ND + 'void h_mov(void) { struct Position P = nondet_Position(); uint32_t a = nondet_u32(), b = nondet_u32(); %s(&P, a, b);' % MOV + CANARY + '}\n'
     out.append(Job(prefix + 'mut/move_piece', PTUS, [MOV], h, 'h_mov', contracts={MOV: C_MOV}, enforce=MOV, spec=SPEC, post_spec=POST,
                    unwindset=loops_unwind([('move_piece', 11)]), route='closed-by-complete-unwinding(11): piece lists have 10 slots',
-                   timeout=2400, backend='cadical', note='move_piece: exact effect on board and bitboards; list row stays well-formed; key delta'))
+                   timeout=2400, backend='cadical', tier='thorough', note='move_piece: exact effect on board and bitboards; list row stays well-formed; key delta'))
     return out
